@@ -33,7 +33,7 @@ def _closure_calls(F, q, depth=0):
     if q not in F.fn_bodies or depth > 3:
         return out
     for j, c2 in F.calls(q):
-        out.append(c2)
+        out.append(dict(c2, _fn=q))
         for a in c2['args']:
             for r in F.trace(q, a):
                 if r[0] == 'agg' and r[1][0] == 'closure':
@@ -142,15 +142,7 @@ def run(F, tier, res):
                 names = Ru.str_lits(F, p, c['args'][0])
                 if names:
                     guards.setdefault(names[0], []).append((i, c))
-        for (bb, chain, kind, payload) in Ru.field_writes(F, p, OPT, None):
-            if kind.startswith('mutcall'):
-                continue
-            flds = [f for a, f in chain if a == OPT]
-            if not flds:
-                continue
-            fld = flds[0]
-            nw += 1
-            good = False
+        def guarded_for(fld, bb):
             for (gb, gc) in guards.get(fld, []):
                 # the switch on the call result
                 tgt = gc['target']
@@ -168,17 +160,55 @@ def run(F, tier, res):
                 tt, ft = Ru.bool_edges(t[2], t[3])
                 not_supplied = tt if neg else ft
                 if Ru.edge_dominates(F, p, tgt, not_supplied, bb):
-                    good = True
-            if good:
+                    return True
+            return False
+
+        def excepted(fld, bb):
+            return fld in EXCEPTIONS and (not EXCEPTIONS[fld].startswith('forced') or Ru.guarded_by(
+                F, p, bb, lambda roots: any(r[0] == 'param' and r[2] and r[2][-1] == 'color_only' for r in roots)))
+        for (bb, chain, kind, payload) in Ru.field_writes(F, p, OPT, None):
+            if kind.startswith('mutcall'):
+                continue
+            flds = [f for a, f in chain if a == OPT]
+            if not flds:
+                continue
+            fld = flds[0]
+            nw += 1
+            if guarded_for(fld, bb):
                 okw += 1
-            elif fld in EXCEPTIONS and (not EXCEPTIONS[fld].startswith('forced') or Ru.guarded_by(
-                    F, p, bb, lambda roots: any(r[0] == 'param' and r[2] and r[2][-1] == 'color_only' for r in roots))):
+            elif excepted(fld, bb):
                 okw += 1
                 exc_used.add(fld)
             else:
                 res.violate('CLI-WINS', 'fn=%s;field=%s' % (p, fld),
                             'opt.%s is overwritten from git config / features without checking that it was not given on the command line' % fld,
                             where=F.bodies[p]['mir']['span']['at'])
+        # a mutable borrow of an option field is a write in waiting (`for s in [&mut opt.a, &mut opt.b] { *s = .. }`, opt.a.push_str(..)):
+        # it needs the same guard - or `opt.<field>.is_none()`, which no command-line value satisfies
+        for bi, blk in enumerate(F.blocks(p)):
+            if blk['cleanup']:
+                continue
+            for st in blk['s']:
+                if not (st[0] == 'assign' and st[2][0] == 'ref' and st[2][1] != 'shared'):
+                    continue
+                fl = [pr[3] for pr in st[2][2]['p'] if pr[0] == 'field' and pr[2] == OPT]
+                if not fl:
+                    continue
+                fld = fl[0]
+                nw += 1
+
+                def none_of_same(rs, fld=fld):
+                    return any(r[0] == 'call' and r[1].endswith('::is_none') and
+                               any(x[0] == 'param' and fld in x[2] for a in r[4]['args'][:1] for x in F.trace(p, a)) for r in rs)
+                if guarded_for(fld, bi) or Ru.guarded_by(F, p, bi, none_of_same):
+                    okw += 1
+                elif excepted(fld, bi):
+                    okw += 1
+                    exc_used.add(fld)
+                else:
+                    res.violate('CLI-WINS', 'fn=%s;field=%s;borrow' % (p, fld),
+                                'opt.%s is borrowed mutably (to be rewritten) without a dominating check that it was not given on the command line' % fld,
+                                where=F.bodies[p]['mir']['span']['at'])
     res.rule('C13.CLI-WINS', nw, 60, 'writes to cli::Opt fields in %s; each guarded by !user_supplied_option(<same field>) (%d guard calls) or in the exception table %s' % (
         [s.split('::')[-1] for s in setters], n_uso, sorted(exc_used)), discharged=okw)
 
@@ -194,9 +224,13 @@ def run(F, tier, res):
         # command-line feature flags: the builtin gatherer called with a feature name that is a literal, directly or through a
         # constant table iterated in place (not a name read from the git config)
         def _flag_name(c):
-            if Ru.str_lits(F, p, c['args'][0]):
+            fn = c.get('_fn', p)
+            if Ru.str_lits(F, fn, c['args'][0]):
                 return True
-            roots = F.trace(p, c['args'][0], deep=True)
+            roots = F.trace_env(fn, c['args'][0], deep=True)
+            if fn != p and any(r[0] == 'param' and r[1] >= 2 for r in roots):
+                # the closure's own argument: an element of what the closure is applied to (a table iterated with for_each, ...)
+                roots = roots + F.closure_payload_roots(fn)
             from_config = any(r[0] == 'call' and ('GitConfig' in r[1] or r[1].endswith('::split_whitespace')) for r in roots)
             return not from_config and any(r[0] in ('agg', 'const') for r in roots)
         B = _bb_of_calls(F, p, lambda r, c: r.endswith('gather_builtin_features_recursively') and _flag_name(c))
